@@ -163,6 +163,7 @@ def run(ctx):
             spends_ok = True
             internal = trm.default_internal_pubkey if n > 1 else points[0]
             root = tree[1].hash()
+            tin = tx = None
             for li, sub in enumerate(subsets):
                 keys = [points[i] for i in sub]
                 if kind == "multi_leaf":
@@ -174,10 +175,15 @@ def run(ctx):
                 leaf_sets.append(sorted(p.xonly() for p in keys) if len(owned) == 1 else [])
                 if li in (0, len(subsets) - 1) or (not q and li % 3 == 0):
                     # spend this leaf signed by exactly this subset
-                    tin = TxIn(rb(32), 0)
-                    tin._value = 100000
-                    tin._script_pubkey = internal.p2tr_script(root)
-                    tx = Tx(2, [tin], [TxOut(90000, Script([0, rb(20)]))], 0, network="signet", segwit=True)
+                    # one transaction per tree: a later subset spends the same input again after the witness was emptied (a second
+                    # attempt with another quorum); what an earlier attempt left on the input must not matter
+                    if tin is None:
+                        tin = TxIn(rb(32), 0)
+                        tin._value = 100000
+                        tin._script_pubkey = internal.p2tr_script(root)
+                        tx = Tx(2, [tin], [TxOut(90000, Script([0, rb(20)]))], 0, network="signet", segwit=True)
+                    else:
+                        tin.witness.items = []
                     cb = tree[1].control_block(internal, leaf)
                     if cb is None:
                         spends_ok = False
